@@ -532,6 +532,7 @@ func genC01eval(g *G) {
 		"9223372036854775807 + 1", "-9223372036854775807 - 2", "9223372036854775807 * 2", "-(-9223372036854775807 - 1)", "(-9223372036854775807 - 1) % -1", "7 % -3", "-7 % 3", "7 % 0", "$k + 1", "$k + 1.0", "$k * $k", "$k == $k + 1.0", "$k + 1 == $k + 1.0", "1 / 0", "-1 / 0", "0 / 0", "1 / 3", "2 / 2",
 		"'a' + 1", "1 + 'a'", "1.0 + 'a'", "'a' + 1.50", "'a' + null", "'a' + true", "'a' + [1, 'b']", "'a' + ['k': 1]", "'a' + $u", "'a' + [$u]", "'a' + ['k': $u]", "1e21", "1e20", "1e-5", "0.0001", "123456789.0", "1e6", "100000.0", "-0.0", "0.1 + 0.2", "1e300 * 1e300", "-1e300 * 1e300",
 		"$l[-1] ?: 'none'", "isNonnull($l[-1])", "$l[0 - 1] ?: 'none'", "$l?[-1] ?: 'none'", "$l[$j + 2] ?: 'none'", "$l[-2] ?: 'none'", "$l[3] ?: 'none'", "$ll[0][-1] ?: 'none'", "round(0.49999999999999994)", "round(4503599627370497.0)", "round(-0.49999999999999994)",
+		"round(49840695234859158)", "round(-49840695234859159)", "round($k + 1)", "round(9007199254740993, 0)", "floor(9007199254740993)", "ceiling(-9007199254740993)", "round(14 * -3560049659632797)",
 		"['k': 1, 'k0': 2]", "['a': 1, 'a b': 2]", "['k': $u] ? 1 : 2",
 		"$m['b']", "$m[$h]", "$l[$i - 6]", "$ll[1][0]", "$m.c.d", "$ij.s", "$ij['n'] + 1", "$ij?.zz?.y", "$t", "$t + $t", "[$t]", "['k': $t]"} {
 		add(pr(e), "hand", true)
